@@ -115,6 +115,8 @@ type Path struct {
 	// (lowest thread id first), kRandomNodes without the rotation fork
 	maxThreadsOpt, maxTimersOpt int
 	schedDet, kRandomDet      bool
+	kRandomReal               bool
+	lzwSizes                  bool
 	ranges                    map[string]ival // declared vRange bounds (part of the path condition)
 	intervalCuts              int
 	encLen   int
